@@ -531,8 +531,8 @@ def part_AB():
                         m += 1
                         for f in F_PLACE:
                             n += 1
-                            if not R.thorough and f not in (0.999, 1.001, (0.0, 0.5, 2.0)[m % 3]):
-                                continue        # quick: just inside, just outside and one rotating placement
+                            if not R.thorough and f not in (0.999, 1.001, 2.0, (0.0, 0.5)[m % 2]):
+                                continue        # quick: f = 0 and f = 0.5 alternate
                             sign = 1 if (n // 2) % 2 == 0 else -1
                             idx = n % 3
                             fa = FORMS_Q[n % len(FORMS_Q)]
